@@ -115,6 +115,9 @@ func c09RLWE(ctx *core.RunCtx) *c09Scheme {
 		{name: "Automorphism", op1: []int{vNone}, ks: c09Rotations, needDeg1: true, deg: degOne, call: func(e any, a *rlwe.Ciphertext, b any, k int, o *rlwe.Ciphertext) error {
 			return ev(e).Automorphism(a, params.GaloisElement(k), o)
 		}},
+		{name: "Automorphism(identity)", op1: []int{vNone}, needDeg1: true, deg: degOne, call: func(e any, a *rlwe.Ciphertext, b any, k int, o *rlwe.Ciphertext) error {
+			return ev(e).Automorphism(a, 1, o)
+		}},
 		{name: "Automorphism(conjugate)", op1: []int{vNone}, needDeg1: true, deg: degOne, call: func(e any, a *rlwe.Ciphertext, b any, k int, o *rlwe.Ciphertext) error {
 			return ev(e).Automorphism(a, params.GaloisElementOrderTwoOrthogonalSubgroup(), o)
 		}},
